@@ -565,7 +565,63 @@ fn c11(r: &Runner) {
             });
         }
     }
+    c11_fraction_tops(r);
     c11_solved(r);
+}
+
+/// Modulus top limbs at the thresholds an analysis of the carry bounds could produce: floor(2^64 * p / q) + d for small
+/// q that are not powers of two (R/3, 2R/3, R/5 ... 7R/8), d in {-1, 0, 1}; lower limbs extreme; operands close to m
+/// (they share its top limb) and the usual shapes. The built-in thresholds 2^62, 2^63 are in the main universe.
+fn c11_fraction_tops(r: &Runner) {
+    let mut tops: Vec<u64> = vec![];
+    for (p, q) in [(1u128, 3u128), (2, 3), (1, 5), (2, 5), (3, 5), (4, 5), (1, 6), (5, 6), (1, 7), (3, 7), (6, 7), (3, 8), (5, 8), (7, 8)] {
+        let t = ((p << 64) / q) as u64;
+        tops.extend([t - 1, t, t + 1]);
+    }
+    tops.sort();
+    tops.dedup();
+    for n in 2..=4usize {
+        let bits = 64 * n;
+        let mut ms: Vec<Limbs> = vec![];
+        for &top in &tops {
+            for low in [1u64, u64::MAX] {
+                for mid in [0u64, u64::MAX, 0x5555_5555_5555_5555] {
+                    let mut m = vec![mid; n];
+                    m[0] = low | 1;
+                    m[n - 1] = top;
+                    ms.push(m);
+                }
+            }
+        }
+        ms.sort();
+        ms.dedup();
+        r.universe(&format!("N={n}: {} moduli with top limb at floor(2^64 p/q) + d, q in {{3,5,6,7,8}} x operands^2", ms.len()), bits, ms.len(), |i, l| {
+            let m = &ms[i];
+            let inv = neg_inv64(m[0]);
+            let mut ops = operands(m, n <= 3);
+            // operands that share the top limb of m with every extreme fill below it
+            for fill in [0u64, 1, u64::MAX - 1, u64::MAX] {
+                let mut a = vec![fill; n];
+                a[n - 1] = m[n - 1];
+                if big(&a) < big(m) {
+                    ops.push(a);
+                }
+            }
+            ops.sort();
+            ops.dedup();
+            for a in &ops {
+                let sq_args = [vu(a), vu(m), V::N(inv as u128)];
+                l.states(1);
+                exec(l, bits, Op::alg_square_redc, &sq_args);
+                exec(l, bits, Op::uint_square_redc, &sq_args);
+                for b in &ops {
+                    let args = [vu(a), vu(b), vu(m), V::N(inv as u128)];
+                    l.states(1);
+                    exec(l, bits, Op::alg_mul_redc, &args);
+                }
+            }
+        });
+    }
 }
 
 /// SOLVED intermediate states: operands for which the accumulator after the first round is T = m + j*2^64
